@@ -130,6 +130,9 @@ def run(ctx):
     tree = gen_tree(t, 1 + t.draw(5), [5 + t.draw(36)])
     text, flags = layout(render(tree), t)
     big = ctx.s("cfg").draw(6000 if ctx.tier == "quick" else 2500)
+    huge = ctx.seed % 240000 == 4242  # exactly one input of 17-20 MiB per 240 000 runs (costs several seconds)
+    if huge:
+        big = 0
     if big < 40:
         # sizes around typical buffer / block boundaries (8 KiB, 64 KiB, 128 KiB, 1 MiB): the same form repeated inside
         # one top-level list, with long comments between the copies
@@ -137,6 +140,9 @@ def run(ctx):
         # several multiples of the small ones
         base = 8192 if big >= 12 else 65536 if big >= 5 else 131072 if big >= 2 else 1 << 20
         target = base * (1 + t.draw(3) if base < (1 << 20) else 1) + base // 16 + t.draw(max(3000, base // 10))
+        if huge:
+            target = (17 << 20) + t.draw(3 << 20)
+            ctx.probes["huge_input"] += 1
         unit = text.strip() + "\n; filler comment with (parens) and words that must stay comment text " + "x" * t.draw(90) + "\n"
         reps = target // max(1, len(unit)) + 2
         text = "(\n" + unit * reps + ")\n"
